@@ -49,6 +49,7 @@ ELEM_KIND = [(re.compile(r"std::vector<std::shared_ptr<cell>"), CIDX), (re.compi
 
 def declare(rep):
     rep.rule("C08.id-kinds", "no comparison, subscript, map key, coupling record or setter mixes two id kinds", floor=60)
+    rep.rule("C08.coupling-lookup-present", "contact model 2: an inserting look-up N.coupled_nodes_map_[k] outside the contact model uses a key k that was drawn from the keys of N's own map (through the id vectors and their intersections): operator[] on an absent key silently inserts a coupling to node 0 of that cell", floor=0)
     rep.rule("C08.renumber-after-resize", "every change of the population in run_iteration / cell_divider::run is followed on every path by list[i]->set_local_id(i)", floor=2)
     rep.rule("C08.fresh-ids", "cell ids come only from the post-incremented counter, which is never decremented or reassigned", floor=3)
     rep.rule("C08.couplings-fresh", "readers of the couplings run after the contact model's reset of the same iteration, with no population change in between", floor=2)
@@ -169,6 +170,8 @@ def run(rep, prog, tier):
     renumber(rep, prog)
     fresh_ids(rep, prog)
     couplings_fresh(rep, prog)
+    if prog.config[0] == 2:
+        coupling_lookup_present(rep, prog)
     face_type_range(rep, prog)
     owner_cell(rep, prog)
 
@@ -545,6 +548,15 @@ def couplings_fresh(rep, prog):
             calls_after = [x for x in walk(run_fn["body"]) if is_call(x) and x.get("callee", "").endswith("resolve_all_contacts")]
             if calls_after and ri.order[id(n)] < ri.order[id(calls_after[0])]:
                 reset_ok = True
+                # ... for EVERY used node: the only condition around the reset is the node's own is_used()
+                from ..model import facts_at
+                extra = [(a_, t_) for a_, t_ in facts_at(run_fn, ri, n) if not (a_.get("k") == "CXXMemberCallExpr" and a_.get("callee", "").endswith("::is_used") and t_)
+                         and not (a_.get("k") == "BinaryOperator" and a_.get("op") in ("<", "!=", "<=") and ri.enclosing(a_, ("ForStmt", "WhileStmt")) is not None)]
+                extra = [(a_, t_) for a_, t_ in extra if not any(a_ is l_.get("cond") or any(x is a_ for x in walk(l_.get("cond") or {})) for l_ in walk(run_fn["body"]) if l_.get("k") in ("ForStmt", "WhileStmt"))]
+                if extra:
+                    a_, t_ = extra[0]
+                    rep.violation("C08.couplings-fresh", prog, run_fn, n, "coupling reset skipped for some nodes",
+                                  "%s resets the couplings only when %s%s: a node for which the condition fails keeps the (cell index, node index) pair stored in an earlier iteration; after a removal, division or remeshing that pair designates another cell / node or lies past the end of the list" % (run_fn["qn"], "" if t_ else "not ", short(a_, 60)))
     if reset_ok:
         rep.ok("C08.couplings-fresh", prog, run_fn, None, "%s resets every node's coupling before resolving the contacts" % run_fn["qn"])
     else:
@@ -732,3 +744,84 @@ def owner_cell(rep, prog):
             rep.ok("C08.owner-cell", prog, ini, None, "initialize_cell_properties calls set_face_owner_cell")
         else:
             rep.violation("C08.owner-cell", prog, ini, None, "initialisation does not set the face owners", "initialize_cell_properties must call set_face_owner_cell")
+
+
+def coupling_lookup_present(rep, prog):
+    """must-provenance of look-up keys: which nodes' maps is a key guaranteed to be a key of?"""
+    n_sites = 0
+    for fn in product_fns(prog):
+        if not isinstance(fn.get("body"), dict) or (fn.get("cls") or "").startswith("contact_"):
+            continue
+        lookups = []
+        for n in walk(fn["body"]):
+            if n.get("k") == "CXXOperatorCallExpr" and n.get("op") == "[]" and len(n.get("c", [])) == 3:
+                o = strip(n["c"][1])
+                if o.get("k") == "MemberExpr" and (o.get("ref") or {}).get("qn") == "node::coupled_nodes_map_" and o.get("c"):
+                    lookups.append((n, render(o["c"][0]), n["c"][2]))
+        if not lookups:
+            continue
+        derived = {}     # did -> set of owner texts whose map certainly contains the value(s) of that variable
+
+        def d_of(e):
+            e = strip(e)
+            while e.get("k") in ("ParenExpr",) and e.get("c"):
+                e = strip(e["c"][0])
+            if e.get("k") == "DeclRefExpr" and (e.get("ref") or {}).get("did") in derived:
+                return derived[e["ref"]["did"]]
+            if e.get("k") == "CXXOperatorCallExpr" and e.get("op") == "[]" and len(e.get("c", [])) == 3:
+                return d_of(e["c"][1])
+            if e.get("k") == "CXXMemberCallExpr" and e.get("callee", "").split("::")[-1] in ("front", "back", "at"):
+                return d_of(call_obj(e))
+            return None
+        for _round in range(3):
+            for n in walk(fn["body"]):
+                k = n.get("k")
+                if k == "CXXForRangeStmt":
+                    rng = strip(n["range"])
+                    if rng.get("k") == "MemberExpr" and (rng.get("ref") or {}).get("qn") == "node::coupled_nodes_map_" and rng.get("c"):
+                        owner = render(rng["c"][0])
+                        var = n.get("var") or {}
+                        keys = []
+                        if var.get("k") == "Decomposition" and var.get("bindings"):
+                            keys = [var["bindings"][0].get("did")]
+                        for kd in keys:
+                            derived[kd] = {owner}
+                elif k == "CXXMemberCallExpr" and n.get("callee", "").split("::")[-1] in ("push_back", "emplace_back") and len(call_args(n)) == 1:
+                    v = strip(call_obj(n))
+                    if v.get("k") == "DeclRefExpr":
+                        dv = d_of(call_args(n)[0])
+                        vd = v["ref"]["did"]
+                        if dv is None:
+                            derived[vd] = set()
+                        else:
+                            derived[vd] = (derived[vd] & dv) if vd in derived and _round == 0 and derived[vd] else (dv if vd not in derived else derived[vd] & dv if derived[vd] else set())
+                elif k == "CallExpr" and n.get("callee") == "std::set_intersection":
+                    a = call_args(n)
+                    if len(a) >= 5:
+                        ins = []
+                        for x in (a[0], a[2]):
+                            objs = [strip(call_obj(y)) for y in walk(x) if y.get("k") == "CXXMemberCallExpr" and y.get("callee", "").split("::")[-1] in ("begin", "cbegin")]
+                            ins.append(d_of(objs[0]) if objs else None)
+                        outs = [strip(call_args(y)[0]) for y in walk(a[4]) if y.get("k") == "CallExpr" and y.get("callee") == "std::back_inserter"]
+                        if outs and outs[0].get("k") == "DeclRefExpr" and all(i_ is not None for i_ in ins):
+                            derived[outs[0]["ref"]["did"]] = ins[0] | ins[1]
+                elif k == "Var" and isinstance(n.get("init"), dict) and n.get("did") is not None:
+                    dv = d_of(n["init"])
+                    if dv is not None:
+                        derived[n["did"]] = set(dv)
+        fi = prog.index(fn)
+        for n, owner, key in lookups:
+            # a store `map[k] = v` is not a look-up
+            par = fi.parent.get(id(n), (None, None))[0]
+            if par is not None and par.get("k") in ("CXXOperatorCallExpr", "BinaryOperator") and par.get("op") == "=" and (par["c"][1] if par["k"] == "CXXOperatorCallExpr" else par["c"][0]) is n:
+                continue
+            n_sites += 1
+            dk = d_of(key)
+            if dk is None:
+                raise AnalysisBroken("%s: the key of the look-up %s has no provenance this checker follows" % (prog.loc(fn, n), short(n, 60)))
+            if owner in dk:
+                rep.ok("C08.coupling-lookup-present", prog, fn, n, "%s: the key is drawn from the keys of %s's own map (it is in: %s)" % (short(n, 50), owner, ", ".join(sorted(dk))))
+            else:
+                rep.violation("C08.coupling-lookup-present", prog, fn, n, "look-up key not drawn from %s's own couplings" % owner,
+                              "%s: the key is only known to be a key of the maps of %s, not of %s: when %s is not coupled to that cell, std::map::operator[] inserts a default entry (node 0 of that cell) which the time integration then treats as a real coupling" % (short(n, 70), ", ".join(sorted(dk)) or "no node", owner, owner))
+    return n_sites
